@@ -210,6 +210,19 @@ Fixpoint flip_at (i : nat) (rs : list resp) : list resp :=
   | r :: t, S k => r :: flip_at k t
   end.
 
+(* response times pairwise at least [w] apart (sufficient for the collusion flag to stay down) *)
+Definition apart (w a b : N) : Prop := (w <= a - b \/ w <= b - a)%N.
+Definition pairwise_apart (w : N) (l : list N) : Prop := ForallOrdPairs (apart w) l.
+
+(* the weighted decision with RAW weights (no clamp at zero), i.e. validate_trust_weighted as it was
+   before the repair recorded in design/C15.md; only used to state why the clamp is needed *)
+Definition raw_weight (r : resp) : Q := match r_trust r with Some t => t | None => CG_UNKNOWN_WEIGHT end.
+Definition weighted_accept_raw (c : cfg) (rs : list resp) (cand : option Q) : bool :=
+  let tw := sumQ (map raw_weight rs) in
+  let cw := sumQ (map raw_weight (filter r_confirms rs)) in
+  gates_ok c rs cand
+  && (if Qltb 0 tw then Qle_bool (c_thr_weighted c * tw) cw else Qle_bool (c_thr_weighted c) 0).
+
 (* ---------- witness counters of validator.rs (NodeValidationResult) ---------- *)
 Record nv := mkNV { nv_conf : N; nv_deny : N; nv_total : N }.
 Inductive nvop := RecConfirm | RecDeny | RecNoResponse.
